@@ -2,3 +2,5 @@ import IrVerif.Props.C06
 open IrVerif.Kernel
 #print axioms C06_atomic
 #print axioms C06_rename_values_atomic
+#print axioms C06_rauw_many_atomic
+#print axioms C06_view_atomic
